@@ -82,7 +82,7 @@ def ct_arrays(table, dtype=np.uint8, interleave=False):
 
 
 # ------------------------------------------------------------------------------------------------ RLE volumes
-RLE_LENGTHS = (1, 255, 256, 257, 65535, 65536)
+RLE_LENGTHS = (1, 255, 256, 257, 65535, 65536, 600001)
 
 
 def rle_count(s, nlab=3):
